@@ -47,6 +47,8 @@ def run(ctx, rep):
         f = P.fn(fn)
         rep.analysed(f)
         cm = compared_members(f)
+        # every decision (one per comparison of `size`) is complete: the time fields are compared at least as often as the size
+        need = max(need, cm.get('size', 0))
         ok = all(cm.get(k, 0) >= need for k in CORE)
         rep.check(ok, 'R-C11-1', '%s compares size, mtime_sec and mtime_nsec' % fn, f.file, 'comparisons per member: %s (needed %d each)' % (cm, need), function=fn, construct='attribute set')
     # NSEC_INVALID acceptance
@@ -122,7 +124,13 @@ def run(ctx, rep):
         rep.check(ok, 'R-C11-3', 'state_diffscan: %s for every entity without the PRESENT mark, after the scan threads are joined' % name, cs[0].loc() if cs else d.file, '', function='state_diffscan', construct=name)
     ins = list(d.calls({'scan_file_delayed_allocate', 'scan_file_allocate', 'scan_file_insert'}))
     alloc = [c for c in d.calls('scan_file_allocate')]
-    okord = bool(alloc) and all(all(a.id in d.reach([r]) and r.id not in d.reach([a]) for r in removes['scan_file_remove']) for a in alloc)
+    okord = bool(alloc)
+    for a in alloc:
+        for r in removes['scan_file_remove']:
+            # within one iteration of the per-disk loop that contains both: the insert follows the removal and not vice versa
+            common = [h for h, body in d.loops.items() if a.block in body and r.block in body]
+            stop = {d.blocks[max(common, key=lambda h: len(d.loops[h]))][0].id} if common else set()
+            okord = okord and a.id in d.reach([r], stop=stop) and r.id not in d.reach([a], stop=stop)
     rep.check(okord, 'R-C11-3', 'state_diffscan: file removals precede the delayed inserts', d.file, '%d delayed-insert sites' % len(alloc), function='state_diffscan', construct='remove before insert')
     nw = [i for i in d.all_insts() if i.op == 'store' and d.expr(i.ops[1]).endswith('state->need_write') and d.const_of(i.ops[0]) == 1]
     ok = bool(nw) and any('scan->need_write' in a and p for s_ in nw for a, p in guards_of(d, s_))
